@@ -53,6 +53,11 @@ def OpHom (σ : Env) (op : Sym → Sym → Option Sym) (f : Int → Int → Opti
   ∀ x y r vx vy w, op x y = some r → x.eval σ = some vx → y.eval σ = some vy →
     f vx vy = some w → r.eval σ = some w
 
+/-- `op` is a homomorphism for `f` on operands satisfying `S`. -/
+def OpHomOn (σ : Env) (S : Sym → Prop) (op : Sym → Sym → Option Sym) (f : Int → Int → Option Int) : Prop :=
+  ∀ x y r vx vy w, S x → S y → op x y = some r → x.eval σ = some vx → y.eval σ = some vy →
+    f vx vy = some w → r.eval σ = some w
+
 theorem mapO_left (σ : Env) (op) (f) (h : OpHom σ op f) (x : Sym) (vx : Int) (hx : x.eval σ = some vx) :
     ∀ (rs : List Sym) (vrs : List Int) (out : List Sym) (w : List Int),
       evalList σ rs = some vrs → mapO (fun y => op x y) rs = some out →
